@@ -275,3 +275,30 @@ func main() {
 		fmt.Println()
 	}
 }
+
+// Marker announces the input about to be evaluated in a memory-mapped file named by
+// VERIF_MARKER, so that the coordinator can attribute a fatal (unrecoverable) crash of this
+// process to that input.  Cheap enough to call per input.
+type Marker struct{ mem []byte }
+
+var theMarker *Marker
+
+// Announce writes s as the current input.
+func Announce(s string) {
+	if theMarker == nil {
+		theMarker = &Marker{}
+		if p := os.Getenv("VERIF_MARKER"); p != "" {
+			theMarker.mem = mmapFile(p, 1<<16)
+		}
+	}
+	m := theMarker.mem
+	if m == nil {
+		return
+	}
+	if len(s) > len(m)-4 {
+		s = s[:len(m)-4]
+	}
+	copy(m[4:], s)
+	l := len(s)
+	m[0], m[1], m[2], m[3] = byte(l), byte(l>>8), byte(l>>16), byte(l>>24)
+}
